@@ -181,7 +181,7 @@ def extract(ctx):
 def _load_consts():
     global ROOTS, DEFAULTS
     if ROOTS is None:
-        c = _consts()
+        c, _fresh = vlib.consts_with_fallback(PROP, _consts)
         ROOTS = list(c["roots"])
         DEFAULTS = c
     return DEFAULTS
